@@ -117,6 +117,8 @@ type Round struct {
 
 // History is the observation history of a case.
 type History struct {
+	LeftAfterClose []string // files still in Directory after Close (set by Cleanup)
+	leftChecked    bool
 	Case          *media.Case
 	M             *gohlslib.Muxer
 	Tracks        []*gohlslib.Track
@@ -251,6 +253,16 @@ func (h *History) Cleanup() {
 		hx.OffKey(h.M.VerifKey())
 	}
 	if h.Dir != "" {
+		if h.Closed && h.StartErr == "" && !h.leftChecked {
+			// what one life cycle of the muxer leaves behind in Directory (C18: disk usage stays
+			// bounded over any number of life cycles; C07 looks at Close itself)
+			h.leftChecked = true
+			if ents, err := os.ReadDir(h.Dir); err == nil {
+				for _, e := range ents {
+					h.LeftAfterClose = append(h.LeftAfterClose, e.Name())
+				}
+			}
+		}
 		os.RemoveAll(h.Dir)
 	}
 }
